@@ -27,19 +27,23 @@ PROPS = {
     'C09': {
         'abi_module': 'AbiC09',
         'stages': quick_thorough(
-            [{'name': 'ops', 'sub': 'c09', 'n': 400}],
-            [{'name': 'ops', 'sub': 'c09', 'n': 10000}]),
+            [{'name': 'ops', 'sub': 'c09', 'n': 400},
+             {'name': 'live', 'sub': 'c09live', 'n': 8, 'timeout': 600}],
+            [{'name': 'ops', 'sub': 'c09', 'n': 10000},
+             {'name': 'live', 'sub': 'c09live', 'n': 12, 'timeout': 3000}]),
         'assumptions': [
             "std::io::Cursor<Vec<u8>> semantics (write overwrites/extends, zero-fills a gap; write_all of an empty slice makes no call) are the destination model",
             "grammar hypothesis of C09_protocol: at most index_length entries, the directory flushed before the first entry (what every writer does); other sequences are covered by the correspondence only",
         ],
-        'partial': 'whole dumps into a pre-positioned destination are exercised by the live stage (C01/C09 live), not by a theorem about run_dump yet',
+        'partial': 'whole dumps (pre-filled destination, non-zero start, short writes, injected errors) are exercised by the live stage, not by a theorem about the whole dump',
     },
     'C10': {
         'abi_module': 'AbiC09',
         'stages': quick_thorough(
-            [{'name': 'prefixes', 'sub': 'c10', 'n': 150}],
-            [{'name': 'prefixes', 'sub': 'c10', 'n': 4000}]),
+            [{'name': 'prefixes', 'sub': 'c10', 'n': 150},
+             {'name': 'live', 'sub': 'c09live', 'n': 8, 'timeout': 600}],
+            [{'name': 'prefixes', 'sub': 'c10', 'n': 4000},
+             {'name': 'live', 'sub': 'c09live', 'n': 12, 'timeout': 3000}]),
         'assumptions': [
             "granularity: Write/Seek trait-level calls; a torn 12-byte entry write or a torn first header+directory write is outside the statement",
             "entries name data inside the image built so far (supplied by C01 for dumps; the generator emits such entries)",
